@@ -300,4 +300,41 @@ theorem mpsc_close_classified (c : Cfg) (s : State) (h : Reachable c s) :
         | failed => exact absurd hw a.p.wFailed
   · rw [hl]; exact a.p.wFailed
 
+/-- **First cause wins.**  Once `send_impl` has ended (the first close / drop / failure it learnt of,
+or all senders gone) no later event changes what the clones of the link observe, which handles are
+resolved how, or what was transmitted. -/
+theorem mpsc_first_cause_wins (c : Cfg) (s : State) (h : Reachable c s) (hend : s.impl.isSome) (ls : List Label) :
+    (run c s ls).reason = s.reason ∧ (run c s ls).impl = s.impl ∧ (run c s ls).hres = s.hres ∧
+    (run c s ls).xmit = s.xmit := by
+  induction ls generalizing s with
+  | nil => exact ⟨rfl, rfl, rfl, rfl⟩
+  | cons l ls ih =>
+    simp only [run]
+    split
+    · next s1 hs =>
+      have q := qinv_reachable c s h
+      obtain ⟨hc, hq⟩ := q.ended hend
+      have key : s1.closedW = s.closedW ∧ s1.errW = s.errW ∧ s1.impl = s.impl ∧ s1.hres = s.hres ∧ s1.xmit = s.xmit := by
+        cases l <;> simp only [step] at hs <;> (repeat' split at hs) <;> (try (simp at hs; done)) <;>
+          (try (obtain rfl := Option.some.inj hs)) <;> simp_all [rexit]
+      obtain ⟨k1, k2, k3, k4, k5⟩ := key
+      have := ih s1 (reachable_step c s s1 l h hs) (by rw [k3]; exact hend)
+      refine ⟨?_, by rw [this.2.1, k3], by rw [this.2.2.1, k4], by rw [this.2.2.2, k5]⟩
+      rw [this.1]; unfold State.reason; rw [k1, k2]
+    · exact ih s h hend
+
+/-- the same for local clones: their reason, once set, stays -/
+theorem mpsc_local_first_cause_wins (c : Cfg) (s s' : State) (l : Label) (h : Reachable c s) (r : Reason)
+    (hr : s.lreason = some r) (hs : step c s l = some s') : s'.lreason = some r := by
+  have a := allinv_reachable c s h
+  have hl : ∀ t : State, t.lreason = t.rW := by
+    intro t; unfold State.lreason closedReasonOf; cases t.rW <;> rfl
+  rw [hl] at hr ⊢
+  have h1 := a.p.wClosed
+  have h2 := a.p.called
+  have h3 := a.p.wDropped
+  have h4 := a.p.wFailed
+  cases l <;> simp only [step] at hs <;> (repeat' split at hs) <;> (try (simp at hs; done)) <;>
+    (try (obtain rfl := Option.some.inj hs)) <;> (try (exact hr)) <;> cases r <;> simp_all [rexit]
+
 end Remoc.Close
